@@ -1225,4 +1225,79 @@ theorem fragment_trace (rnf : Bool) (testTypes : List Str) (rows : List CRow) (o
   obtain ⟨outF, hpF, hfr, hgood, hshape, hsched, hfirst, hch⟩ := good_of_fragment rows outT hf hp1
   exact fragment_traceA rnf testTypes (annotate rows) out r outT outF hfr hp1 hpF hgood hshape hsched hfirst hch hc hr env len
 
+/-! ### sheets without merged rows: the fused reading is the reference reading
+
+so the clauses about merged rows hold by themselves and the fragment is what it was without them -/
+
+theorem fold_pass1F_unmerged (rows : List CRow) : ∀ (l : List CRow) (k : Nat) (st : P1),
+    (∀ c ∈ l, (c.merged && isNamedAct c) = false) →
+    (l.zipIdx k).foldlM (fun st (p : CRow × Nat) => pass1RowF rows st p.2 p.1) st =
+      ((l.map toRRow).zipIdx k).foldlM (fun st (p : RRow × Nat) => pass1Row st p.2 p.1) st := by
+  intro l
+  induction l with
+  | nil => intro k st _; rfl
+  | cons c l ih =>
+    intro k st h
+    simp only [List.zipIdx_cons, List.map_cons, List.foldlM_cons]
+    have hc : pass1RowF rows st k c = pass1Row st k (toRRow c) := by
+      unfold pass1RowF; rw [h c (by simp)]; rfl
+    rw [hc]
+    cases pass1Row st k (toRRow c) with
+    | error e => rfl
+    | ok st1 => exact ih (k + 1) st1 (fun c' hc' => h c' (by simp [hc']))
+
+/-- without merged rows the fused reading of a sheet is its reference reading -/
+theorem pass1F_unmerged (rows : List CRow) (h : ∀ c ∈ rows, (c.merged && isNamedAct c) = false) :
+    pass1F rows = pass1 (rows.map toRRow) := by
+  unfold pass1F pass1
+  have := fold_pass1F_unmerged rows rows 0 {} h
+  simp only [bind, Except.bind] at this ⊢
+  rw [show (fun st (x : CRow × Nat) => match x with | (c, k) => pass1RowF rows st k c) =
+      (fun st (p : CRow × Nat) => pass1RowF rows st p.2 p.1) from rfl,
+    show (fun st (x : RRow × Nat) => match x with | (r, k) => pass1Row st k r) =
+      (fun st (p : RRow × Nat) => pass1Row st p.2 p.1) from rfl, this]
+
+/-- … and the clause that ties the two readings holds by itself -/
+theorem chainsOk_unmerged (rows : List CRow) (h : ∀ c ∈ rows, (c.merged && isNamedAct c) = false)
+    (out : List OutEdge) (hp : pass1 (rows.map toRRow) = .ok out) : chainsOk rows out out = true := by
+  unfold chainsOk
+  simp only [Bool.and_eq_true, List.all_eq_true, List.mem_range]
+  refine ⟨fun e he => ?_, fun R hR => ?_⟩
+  · have := pass1_targets _ _ hp e he
+    unfold tgtOwns
+    cases ht : e.tgt with
+    | exit => rfl
+    | row t =>
+      rw [ht] at this
+      obtain ⟨rr, hrr, hrk⟩ := this
+      simp only [List.getElem?_map] at hrr
+      cases hct : rows[t]? with
+      | none => rw [hct] at hrr; cases hrr
+      | some ct =>
+        rw [hct] at hrr
+        simp only [Option.map_some, Option.some.injEq] at hrr
+        have hm := h ct (List.mem_of_getElem? hct)
+        rw [← hrr] at hrk
+        have hk : (kindOf ct.row.type).isNode = true := hrk
+        simp only [hct, ownsNode, hm, hk, Bool.not_false, Bool.and_self]
+  · obtain ⟨cR, hcR⟩ : ∃ cR, rows[R]? = some cR := ⟨rows[R], by simp [hR]⟩
+    rw [hcR]
+    simp only
+    have hch : membersOf rows R = [R] := by
+      unfold membersOf
+      rw [hcR]
+      simp only
+      split
+      · congr 1
+        rw [List.filter_eq_nil_iff]
+        intro i _
+        unfold mergedNamed
+        cases hci : rows[i]? with
+        | none => simp
+        | some ci => simp [h ci (List.mem_of_getElem? hci)]
+      · rfl
+    rw [hch]
+    simp only [List.tail_cons, List.zip_nil_right, List.all_nil, Bool.true_and, List.getLastD_cons,
+      List.getLastD_nil, map_resrc_self, decide_true, Bool.or_true]
+
 end Rpft.CoreSheet
